@@ -125,6 +125,10 @@ def _programs(b, w, prog, sp, tier, square):
               ("phase_transpose", lambda ev, x: w.meth(ev, x, "phase_transpose", rev))]
     if tier == "quick":
         firsts = firsts[:2] if nd <= 3 else []
+    import os
+
+    if os.environ.get("VERIF_SELFTEST"):
+        firsts = firsts[:1] if nd <= 2 else []  # armed-ness runs: one variant per process, keep them short
     for (n1, f1) in firsts:
         ops += [(f"{n1} ; {n}", a, f, (), f1) for (n, a, f) in second_ops(nd)]
     return [o for o in ops if o[1] is not None]
